@@ -29,6 +29,9 @@ static FILE* out = stdout;
 static std::map<long, std::vector<CK_ULONG> > results;   // op number -> handles it returned
 static long opNo = 0;
 static CK_ULONG maxHandleSeen = 0;
+static std::string gOpsFile, gSelf;       // for `reexec`
+static std::istream* gIn = NULL;
+#include <sys/stat.h>
 
 static std::string hex(const unsigned char* p, size_t n) {
 	if (n == 0) return ".";
@@ -221,6 +224,75 @@ static void run(const std::vector<std::string>& t) {
 		else { fs::remove_all(d, ec); fs::copy(d + ".snap." + t[1], d, fs::copy_options::recursive, ec); }
 		if (ec) rc = 1;
 		fprintf(out, "= %d\n", rc);
+	}
+	else if (op == "reexec") {
+		// a NEW PROCESS continues the trace on the same token directory: this one is replaced (no C_Finalize unless the trace called it).
+		// The handle-reference table and the position in the op file are carried over in a state file.
+		const char* td = getenv("VERIF_TOKENDIR");
+		if (!td || gOpsFile.empty() || !gIn) { fprintf(out, "= BADOP\n"); return; }
+		std::string sf = std::string(td) + ".reexec";
+		{ std::ofstream o(sf.c_str());
+		  o << (long long)gIn->tellg() << " " << opNo << " " << results.size() << "\n";
+		  for (auto& kv : results) { o << kv.first << " " << kv.second.size(); for (CK_ULONG v : kv.second) o << " " << v; o << "\n"; } }
+		fprintf(out, "= 0\n"); fflush(out);
+		execl(gSelf.c_str(), gSelf.c_str(), gOpsFile.c_str(), "--resume", sf.c_str(), (char*)NULL);
+		fprintf(out, "= EXECFAILED\n"); exit(3);
+	}
+	else if (op == "dumpdir") {
+		// every file and directory under the token directory: `D:<relpath>:<mode>` / `F:<relpath>:<mode>:<hex content>`, sorted by path
+		const char* td = getenv("VERIF_TOKENDIR");
+		if (!td) { fprintf(out, "= BADOP\n"); return; }
+		namespace fs = std::filesystem; std::error_code ec;
+		std::vector<std::string> rows;
+		for (auto it = fs::recursive_directory_iterator(td, ec); !ec && it != fs::recursive_directory_iterator(); it.increment(ec)) {
+			std::string rel = fs::relative(it->path(), td, ec).string();
+			struct stat st; if (::stat(it->path().c_str(), &st) != 0) continue;
+			char mode[16]; snprintf(mode, sizeof mode, "%o", (unsigned)(st.st_mode & 07777));
+			if (S_ISDIR(st.st_mode)) rows.push_back("D:" + rel + ":" + mode);
+			else {
+				std::ifstream f(it->path().c_str(), std::ios::binary); std::vector<unsigned char> c((std::istreambuf_iterator<char>(f)), std::istreambuf_iterator<char>());
+				rows.push_back("F:" + rel + ":" + mode + ":" + (c.empty() ? std::string(".") : hex(c.data(), c.size())));
+			}
+		}
+		std::sort(rows.begin(), rows.end());
+		fprintf(out, "= 0 %zu", rows.size());
+		for (auto& r : rows) fprintf(out, " %s", r.c_str());
+		fprintf(out, "\n");
+	}
+	else if (op == "fsmut") {
+		// fsmut <kind> <relpath> [args]: damage one file of the token directory (between calls; models what a crash or a foreign writer leaves)
+		//   truncate <n> | flip <offset> <xormask hex> | write <hex> | append <hex> | remove | chmod <octal>
+		const char* td = getenv("VERIF_TOKENDIR");
+		if (!td || t.size() < 3) { fprintf(out, "= BADOP\n"); return; }
+		// path: literal, or symbolic `T<i>[/O<j>|/<name>]`: i-th token directory / j-th object file, in sorted order (directory names are random)
+		std::string path = std::string(td) + "/" + t[2]; int rc = 0;
+		if (t[2][0] == 'T' && isdigit((unsigned char)t[2][1])) {
+			namespace fs = std::filesystem; std::error_code ec; std::vector<std::string> dirs;
+			for (auto& e : fs::directory_iterator(td, ec)) if (e.is_directory()) dirs.push_back(e.path().string());
+			std::sort(dirs.begin(), dirs.end());
+			size_t slash = t[2].find('/'); size_t i = strtoul(t[2].c_str() + 1, NULL, 10);
+			if (i >= dirs.size()) { fprintf(out, "= 1\n"); return; }
+			path = dirs[i];
+			if (slash != std::string::npos) {
+				std::string rest = t[2].substr(slash + 1);
+				if (rest[0] == 'O' && rest.size() > 1 && isdigit((unsigned char)rest[1])) {
+					std::vector<std::string> objs;
+					for (auto& e : fs::directory_iterator(path, ec)) { std::string n = e.path().filename().string(); if (n != "token.object" && n.size() > 7 && n.substr(n.size() - 7) == ".object") objs.push_back(e.path().string()); }
+					std::sort(objs.begin(), objs.end());
+					size_t j = strtoul(rest.c_str() + 1, NULL, 10);
+					if (j >= objs.size()) { fprintf(out, "= 1\n"); return; }
+					path = objs[j];
+				} else path += "/" + rest;
+			}
+		}
+		const std::string& k = t[1];
+		if (k == "truncate") rc = ::truncate(path.c_str(), (off_t)N(3));
+		else if (k == "remove") rc = ::remove(path.c_str());
+		else if (k == "chmod") rc = ::chmod(path.c_str(), (mode_t)strtoul(t[3].c_str(), NULL, 8));
+		else if (k == "flip") { FILE* f = fopen(path.c_str(), "r+b"); if (!f) rc = -1; else { fseek(f, (long)N(3), SEEK_SET); int c = fgetc(f); if (c == EOF) rc = -1; else { fseek(f, (long)N(3), SEEK_SET); fputc(c ^ (int)strtoul(t[4].c_str(), NULL, 16), f); } fclose(f); } }
+		else if (k == "write" || k == "append") { Bytes b; if (t[3] != ".") unhex(t[3], b); FILE* f = fopen(path.c_str(), k == "write" ? "wb" : "ab"); if (!f) rc = -1; else { if (!b.empty()) fwrite(b.data(), 1, b.size(), f); fclose(f); } }
+		else { fprintf(out, "= BADOP\n"); return; }
+		fprintf(out, "= %d\n", rc == 0 ? 0 : 1);
 	}
 	else if (op == "init") { fprintf(out, "= %lu\n", C_Initialize(NULL_PTR)); maxHandleSeen = 0; }
 	else if (op == "fini") { fprintf(out, "= %lu\n", C_Finalize(NULL_PTR)); }
@@ -449,10 +521,17 @@ static void onSignal(int sig) {
 }
 
 int main(int argc, char** argv) {
-	std::istream* in = &std::cin; std::ifstream f;
-	if (argc > 1 && strcmp(argv[1], "-") != 0) { f.open(argv[1]); if (!f) { fprintf(stderr, "cannot open %s\n", argv[1]); return 2; } in = &f; }
+	std::istream* in = &std::cin; static std::ifstream f;
+	if (argc > 1 && strcmp(argv[1], "-") != 0) { f.open(argv[1]); if (!f) { fprintf(stderr, "cannot open %s\n", argv[1]); return 2; } in = &f; gOpsFile = argv[1]; }
+	{ char buf[4096]; ssize_t n = readlink("/proc/self/exe", buf, sizeof buf - 1); if (n > 0) { buf[n] = 0; gSelf = buf; } }
+	gIn = in;
 	signal(SIGSEGV, onSignal); signal(SIGBUS, onSignal); signal(SIGFPE, onSignal); signal(SIGABRT, onSignal); signal(SIGILL, onSignal);
 	setvbuf(out, NULL, _IOLBF, 0);
+	if (argc > 3 && strcmp(argv[2], "--resume") == 0) {
+		std::ifstream sf(argv[3]); long long off = 0; size_t n = 0; sf >> off >> opNo >> n;
+		for (size_t i = 0; i < n; i++) { long k; size_t m; sf >> k >> m; std::vector<CK_ULONG>& v = results[k]; for (size_t j = 0; j < m; j++) { CK_ULONG x; sf >> x; v.push_back(x); } }
+		f.clear(); f.seekg(off);
+	}
 	std::string line;
 	while (std::getline(*in, line)) {
 		if (line.rfind("#trace", 0) == 0) { fprintf(out, "%s\n", line.c_str()); fflush(out); opNo = 0; results.clear(); continue; }
